@@ -76,6 +76,7 @@ func (s *State) clone() *State {
 }
 
 type Exec struct {
+	callFree []Value // captured-variable cells of the closure whose contract is being applied (set by callFunc)
 	eng       *Engine
 	vc        *VC
 	top       *ssa.Function
